@@ -186,6 +186,6 @@ class Face(ElementBase):
         indexes = list(range(4))
         indexes.sort(key=lambda i: f.norm(position - self.points[i].position))
 
-        self.shift(indexes[0])
+        self.shift(-indexes[0])
 
         return self
